@@ -4,6 +4,10 @@ Part A (exhaustive): every sequence of length <= L over {Start, Stop, Pause, Unp
 Restart, tick} from the stopped state, followed by settle ticks.
 Part B (Hypothesis): longer sequences in which the *method* also issues Pause/Hold (with and without
 duration), Stop and Restart, interleaved with user requests.
+Part C (exhaustive): histories of several runs - "Start, tick" followed by every sequence of K macro-steps
+<command, n ticks> with n from a small set that includes "settled" (a Restart needs three ticks, a Stop two) and
+"at once" (0 ticks: the next request arrives before the next tick): what an engine does long after a completed
+Restart or Stop (second run, third run) is out of reach of Part A's length.
 
 Oracle = reference model (DESIGN Appendix A.1) written from the statement:
   flags (active, paused, holding), restart/stop phases, timers of timed Pause/Hold.
@@ -28,7 +32,8 @@ LEVEL = "exploration"
 ENGINE = "engine_harness"
 TECHNIQUE = "exhaustive command-sequence enumeration + Hypothesis sequences against a reference run-state model"
 RULE = ("Part A: all sequences of length<=L over 7 user control commands + tick (itertools.product, sharded), 4 settle ticks; "
-        "Part B: Hypothesis sequences (<=30 steps) with method-issued Pause/Hold/Stop/Restart. Non-trivial = the run visits "
+        "Part B: Hypothesis sequences (<=30 steps) with method-issued Pause/Hold/Stop/Restart; "
+        "Part C: Start,tick + all sequences of K macro-steps <command, n ticks> (n in {0,2,3} quick / {0,1,2,3} thorough). Non-trivial = the run visits "
         ">=3 distinct system states. Distinct = distinct operation sequence (+method).")
 ASSUMPTIONS = [
     "a user request is validated against the state at request time and executed in the next tick; Stop needs two ticks, "
@@ -39,8 +44,8 @@ ASSUMPTIONS = [
 CMDS = ["Start", "Stop", "Pause", "Unpause", "Hold", "Unhold", "Restart"]
 ALPHA = CMDS + ["tick"]
 TIERS = {
-    "quick": {"L": 5, "hyp_examples": 150, "budget_s": 110, "exhaustive": True},
-    "thorough": {"L": 6, "hyp_examples": 4000, "budget_s": 1500, "exhaustive": True},
+    "quick": {"L": 5, "hyp_examples": 150, "budget_s": 150, "exhaustive": True, "K": 3, "gaps": [0, 2, 3]},
+    "thorough": {"L": 6, "hyp_examples": 4000, "budget_s": 1500, "exhaustive": True, "K": 4, "gaps": [0, 1, 2, 3]},
 }
 
 
@@ -311,6 +316,28 @@ def run_shard(col, cfg):
             col.record(case, len(info["states"]) >= 3, classes=["A:len%d" % n] + (["A:ambiguous"] if info["ambiguous"] else []),
                        violations=vs, sample={"ops": list(seq), "states": info["states"]})
     col.extra["exhaustive_sequences_up_to_len"] = L
+
+    # Part C: macro-steps <command, n ticks> after "Start, tick"; K-1 and K steps (a shorter history is not a prefix run:
+    # the settle ticks at the end differ)
+    steps = [(c, g) for c in CMDS for g in cfg["gaps"]]
+    n_c = 0
+    for k in (cfg["K"] - 1, cfg["K"]):
+        for seq in itertools.product(steps, repeat=k):
+            idx += 1
+            if idx % col.nshards != col.shard:
+                continue
+            if col.expired():
+                return
+            ops = ["Start", "tick"]
+            for c, g in seq:
+                ops += [c] + ["tick"] * g
+            case = {"ops": ops}
+            vs, info = run_case(case)
+            n_c += 1
+            col.record(case, len(info["states"]) >= 3, classes=["C:steps%d" % k] + (["C:ambiguous"] if info["ambiguous"] else [])
+                       + (["C:runs>=3"] if len(info.get("runs", [])) >= 3 else []),
+                       violations=vs, sample={"ops": ops, "states": info["states"]})
+    col.extra["macro_step_histories"] = n_c
 
     # Part B
     def body(case):
